@@ -22,6 +22,7 @@ import (
 	"math"
 	"math/big"
 	"os"
+	"path/filepath"
 	"strconv"
 	"strings"
 	"unicode/utf8"
@@ -386,6 +387,9 @@ func main() {
 
 	var ops []string
 	if f.Replay != "" {
+		if _, serr := os.Stat(f.Replay); serr != nil && !filepath.IsAbs(f.Replay) {
+			f.Replay = filepath.Join(os.Getenv("VERIF_DIR"), f.Replay) // ./check runs us in a scratch directory
+		}
 		var err error
 		ops, err = hx.ReadReplayOps(f.Replay)
 		if err != nil {
@@ -404,9 +408,9 @@ func main() {
 				rep.Count("corpus")
 			}
 		}
-		nval, nleaf, ncontract, deep := 1500, 2500, 4000, 40
+		nval, nleaf, ncontract, deep := 6000, 10000, 16000, 60
 		if f.Thorough() {
-			nval, nleaf, ncontract, deep = 60000, 120000, 150000, 400
+			nval, nleaf, ncontract, deep = 200000, 400000, 450000, 400
 		}
 		// every boundary leaf on its own and as a negative/positive pair
 		for _, x := range jx.BoundaryFloats {
